@@ -107,6 +107,24 @@ WINDOWS = {
               {"op": "int", "t": "conn"}, {"op": "int", "t": "cache"},
               {"op": "send", "c": "c2", "m": "subscribe", "rid": "b"}, reply("call", "ok")],
         pre={}, reuse=[7, 8, 12, 13, 15, 16], K=5),
+    # a system reset while the initial get of the resource is still outstanding: answers in either order, events, a second reset
+    "win-reset1": dict(
+        cfg=dict(family="win-reset1", resources={"a": M(x=P("1"), r1=R("b")), "b": M(y=P("1"))}),
+        prologue=[opn("c1"), opn("c2"), send("c1", "subscribe", "a")],
+        pool=[reset(res=["a"]), reply("get", "ok", n="a", pick=0), reply("get", "ok", n="a", pick=1), reply("get", "timeout", n="a", pick=1),
+              reply("get", "notFound", n="a", pick=1), reply("get", "err", n="a", pick=0), reply("access", "ok"),
+              ev("a", "change", k="x", val=P("2")), ev("a", "custom"), mut("a", k="x", val=P("5")), send("c2", "subscribe", "a"),
+              reset(res=[">"]), ev("a", "change", k="x", val=P("3")), reply("get", "ok", n="b")],
+        pre={}, reuse=[1, 2, 8, 9], K=5),
+    # the same with the resource loaded and held: failed re-fetches (timeout, error, not found), events meanwhile, another reset
+    "win-reset2": dict(
+        cfg=dict(family="win-reset2", resources={"a": M(x=P("1"), r1=R("b")), "b": M(y=P("1"))}),
+        prologue=[opn("c1"), opn("c2"), send("c1", "subscribe", "a"), Q, mut("a", k="x", val=P("4"))],
+        pool=[reset(res=["a"]), reply("get", "ok", n="a"), reply("get", "timeout", n="a"), reply("get", "err", n="a"),
+              reply("get", "notFound", n="a"), ev("a", "change", k="x", val=P("2")), ev("a", "custom"), mut("a", k="x", val=P("5")),
+              send("c2", "subscribe", "a"), reset(res=[">"]), ev("a", "change", k="x", val=P("3")), reply("access", "ok"),
+              send("c1", "unsubscribe", "a"), reset(res=["b"])],
+        pre={}, reuse=[1, 2, 6, 7], K=5),
     # reference graph changes around subscribe / unsubscribe
     "win-gc": dict(
         cfg=dict(family="win-gc", resources={
